@@ -10,6 +10,7 @@ import Driver.Blas
 import Driver.Pre
 import Driver.Lacon
 import Driver.Rfs
+import Driver.UStackEng
 
 def readAll (h : IO.FS.Stream) : IO String := do
   let mut acc := ""
@@ -33,6 +34,7 @@ def main (args : List String) : IO UInt32 := do
   | ["equil"] => Drv.equilMain (← readAll stdin)
   | ["argcheck"] => Drv.argcheckMain (← readAll stdin)
   | ["fixup"] => Drv.fixupMain (← readAll stdin)
+  | ["ustack", iw, dw] => Drv.ustackMain (← readAll stdin) (iw.toInt?.getD 4) (dw.toInt?.getD 8)
   | ["schedtrace"] => Drv.schedTraceMain (← readAll stdin)
   | ["schedexplore"] => Drv.schedExploreMain (← readAll stdin)
   | _ => IO.eprintln "usage: sludrv <engine>   (input on stdin)"; return 2
